@@ -139,7 +139,7 @@ def main(argv=None):
     job = chk.plan(args.tier, seed, args.scale)
     job["tier"] = args.tier
     job["seed"] = seed
-    outdir = os.path.join(HERE, "out", "work")
+    outdir = os.path.join(os.environ.get("VERIF_OUT_DIR") or os.path.join(HERE, "out"), "work")
     results = run_workers(pid, job, outdir, job.get("timeout_s", 3000))
     m = merge(results)
     entries = findings.load()
@@ -157,7 +157,7 @@ def main(argv=None):
     verdict, reasons = chk.decide(m, args.tier)
     replay_paths = []
     if unlisted:
-        rdir = os.path.join(HERE, "out", "replays")
+        rdir = os.path.join(os.environ.get("VERIF_OUT_DIR") or os.path.join(HERE, "out"), "replays")
         os.makedirs(rdir, exist_ok=True)
         for k, v in enumerate(unlisted[:5]):
             pth = os.path.join(rdir, f"{pid}-seed{seed}-{args.tier}-{k}.json")
@@ -181,8 +181,9 @@ def main(argv=None):
         "coverage": cov, "assumptions": ev.get("assumptions", []),
         "wall_s": round(wall, 2), "violations": len(unlisted),
     }
-    os.makedirs(os.path.join(HERE, "evidence"), exist_ok=True)
-    with open(os.path.join(HERE, "evidence", f"{pid}.json"), "w") as f:
+    evdir = os.environ.get("VERIF_EVIDENCE_DIR") or os.path.join(HERE, "evidence")
+    os.makedirs(evdir, exist_ok=True)
+    with open(os.path.join(evdir, f"{pid}.json"), "w") as f:
         json.dump(doc, f, indent=1, default=str)
     print(f"[{pid}] tier={args.tier} seed={seed} evaluations={cov['evaluations']} "
           f"distinct_nontrivial={cov['distinct_nontrivial']} wall={wall:.1f}s")
